@@ -441,6 +441,10 @@ class Parser:
         if not ExpressionParser(self).expression():
             return False
         code_gen.add_instruction(OpCode.OP, Operator.NOT)
+        if dest is not OpCode.PUSH:
+            # Outside an enclosing expression the value has to reach its
+            # destination and leave the stack.
+            code_gen.pop(dest)
         return True
 
     def _rvalue_expr(self, dest, code_gen):
